@@ -180,6 +180,24 @@ def run_check(run, tier):
                 run.add(ob, 'unknown', cur['backend'], cur['ms'], fq, cur.get('detail', ''))
                 run.undecide(ob, cur.get('detail', ''))
     run.hashes.update(sess.repo.hashes)
+    # the contract of KdBufParser.parse that the stage proofs rest on - a version-3 dump yields its kernel events (from_kd_buf)
+    # and then its log records exactly as from_raw_log_event decodes them, no third kind of element - is discharged again here
+    from checks import c03
+    saved_pf = getattr(run, 'pending_failures', [])
+    run.pending_failures = []
+    c03.verify_chunk_loops(run, tier, wf=True, prefix='C12/parse_v3',
+                           only=('/logs.', 'blocks.step.TRACEV3_LOG', '/supported', '/noraise', 'records.step-yields', 'records.step-event'))
+    mine, run.pending_failures = run.pending_failures, saved_pf
+    if mine:
+        out = native({'kind': 'v3_blocks_search', 'seed': run.seed, 'budget': 300}, timeout=900)
+        f = out.get('found')
+        for ob, status, detail in mine:
+            if f:
+                run.violation(ob, {'request': f['request'], 'native': f, 'solver_output': '%s (%s)' % (status, detail)}, True, what=f.get('what', ''))
+            elif status == 'refuted':
+                run.violation(ob, {'request': None, 'solver_output': detail}, False, what='obligation %s no longer holds' % ob)
+            else:
+                run.undecide(ob, 'not proved (%s)' % detail)
     if run.undecided:
         # constructs outside the subset / unknowns: look for a failing request sequence natively before giving up
         out = native({'kind': 'filters_search'}, timeout=600)
